@@ -18,13 +18,15 @@ T0, STEP = 1000, 10
 class Table:
     """n rows; symbolic data columns, concrete times"""
 
-    def __init__(self, n, streams=('a', 'b'), missing=None, with_axes=('time', 'z', 'lat', 'lon'), index_labels=None, concrete=None, time_order=None):
+    def __init__(self, n, streams=('a', 'b'), missing=None, with_axes=('time', 'z', 'lat', 'lon'), index_labels=None, concrete=None, time_order=None,
+                 time_offset=0, time_carrier='dt64'):
         self.concrete = concrete or {}       # column -> list of concrete numbers (instead of symbolic atoms)
         self.extra_vars = {}                  # xarray only: variable name -> length, living on its own dimension without a time coordinate
         self.n = n
-        self.t = [T0 + STEP * i for i in range(n)]
+        self.t = [T0 + STEP * i + time_offset for i in range(n)]      # time_offset: instants that are not on whole seconds
         if time_order is not None:            # rows not in chronological order
-            self.t = [T0 + STEP * k for k in time_order]
+            self.t = [T0 + STEP * k + time_offset for k in time_order]
+        self.time_carrier = time_carrier      # 'dt64' | 'epoch_float' (numbers of seconds since the epoch, NumpyStream only)
         self.streams = list(streams)
         self.missing = missing or {}          # column -> set of row numbers that are NaN
         self.axes = tuple(with_axes)
@@ -35,7 +37,7 @@ class Table:
         out = []
         for i in rows:
             if col == 'time':
-                out.append(El(X.num(self.t[i]), False))
+                out.append(El(X.NAN if i in self.missing.get('time', ()) else X.num(self.t[i]), False))      # NaN in a datetime column = NaT
             elif i in self.missing.get(col, ()):
                 out.append(El(X.NAN, False))
             elif col in self.concrete:
@@ -48,12 +50,18 @@ class Table:
 
     def vec(self, col, rows=None, kind='nd'):
         if col == 'time':
+            if self.time_carrier == 'epoch_float' and kind == 'nd':
+                return Vec.fresh(self.cells(col, rows), kind=kind, dtype='f8', owner=col)
             return Vec.fresh(self.cells(col, rows), kind=kind, dtype='M8', unit='ns', owner=col)
         return Vec.fresh(self.cells(col, rows), kind=kind, dtype='f8', owner=col)
 
     def rows_in(self, window):
         lo, hi = window
-        return [i for i in range(self.n) if (lo is None or self.t[i] >= lo) and (hi is None or self.t[i] < hi)]
+        nat = self.missing.get('time', ())
+        if lo is None and hi is None:
+            return list(range(self.n))
+        # a row without a timestamp satisfies no window predicate
+        return [i for i in range(self.n) if i not in nat and (lo is None or self.t[i] >= lo) and (hi is None or self.t[i] < hi)]
 
 
 # logical test configurations (module, test, kwargs, inputs it needs)
